@@ -46,6 +46,10 @@ def main():
         rcb, ob = run("go build ./...", cwd=wt)
         meta["steps"]["build_with_change"] = {"exit": rcb, "out": ob[-400:]}
         rc1, o1 = run(demo_cmd, cwd=wt)
+        for _ in range(3):  # schedule-dependent demos: the change counts as demonstrated when one run fails
+            if rc1 != 0:
+                break
+            rc1, o1 = run(demo_cmd, cwd=wt)
         meta["steps"]["demo_with_change"] = {"exit": rc1, "tail": o1[-900:]}
         # suite with change (demo files removed so that they do not count)
         for r in rels:
